@@ -22,13 +22,13 @@ from mc.snapshot import digest
 PID = 'C18'
 LEVEL = 'model_checking'
 RULE = ('17 estimators x every non-deprecated constructor parameter x {default, documented alternatives, sentinel, ndarray, '
-        'callable} through the constructor and through set_params (identity of the stored object); BFS depth 3 (quick) / 4 '
+        'callable} through the constructor and through set_params (identity of the stored object); BFS depth 3 (quick) / 6 (thorough) '
         'over {set_params of 4 (parameter, value) pairs, clone, pickle} against a dict reference model; aliases; unfitted '
         'queries; clone+fit and pickle bit-identity for base and array-valued configurations; signature = (estimator, '
         'parameter, value kind) / (event, successor state)')
 ASSUMPTIONS = ['LFDA.embedding_type is only given its three documented values (its constructor validates it), as stated in '
                'DESIGN.md.', 'clone / pickle are required to preserve values (equality), not identity.']
-BOUNDS = {'quick': dict(depth=3), 'thorough': dict(depth=4)}
+BOUNDS = {'quick': dict(depth=3), 'thorough': dict(depth=6)}
 
 ALIASES = {'LMNN': [('k', 'n_neighbors', 5)], 'RCA_Supervised': [('num_chunks', 'n_chunks', 7)],
            'ITML': [('convergence_threshold', 'tol', 0.125)], 'MMC': [('convergence_threshold', 'tol', 0.125)],
